@@ -338,22 +338,38 @@ func loadView(ctx context.Context, scope *ReferenceScope, tableExpr parser.Query
 			var hfields Header
 			resultSetList := make([]RecordSet, view.RecordLen())
 
-			if err := EvaluateSequentially(ctx, scope, view, func(seqScope *ReferenceScope, rIdx int) error {
+			applySubquery := func(seqScope *ReferenceScope, records RecordSet) (*View, error) {
 				appliedView, err := Select(ctx, seqScope, subquery.Query)
 				if err != nil {
-					return err
+					return nil, err
 				}
 
 				if 0 < len(joinTableName.Literal) {
 					if err = appliedView.Header.Update(joinTableName.Literal, nil); err != nil {
-						return err
+						return nil, err
 					}
 				}
 
 				calcView := NewView()
 				calcView.Header = view.Header.Copy()
-				calcView.RecordSet = RecordSet{view.RecordSet[rIdx].Copy()}
+				calcView.RecordSet = records
 				if err = joinViews(ctx, scope, calcView, appliedView, join); err != nil {
+					return nil, err
+				}
+				return calcView, nil
+			}
+
+			if view.RecordLen() < 1 {
+				// There is no record to apply the subquery to. The header of the result is obtained from
+				// an evaluation of the subquery in which the references to the left table are null.
+				calcView, err := applySubquery(scope.CreateScopeForSequentialEvaluation(view), RecordSet{})
+				if err != nil {
+					return nil, err
+				}
+				hfields = calcView.Header
+			} else if err := EvaluateSequentially(ctx, scope, view, func(seqScope *ReferenceScope, rIdx int) error {
+				calcView, err := applySubquery(seqScope, RecordSet{view.RecordSet[rIdx].Copy()})
+				if err != nil {
 					return err
 				}
 
